@@ -356,6 +356,18 @@ impl FromTokens for Expr {
     fn from_tokens(ts: TokenStream) -> (r: Self) { unimplemented!() }
 }
 
+impl FromTokens for Path {
+    open spec fn parsed_ok(r: Self, ts: Seq<Tok>) -> bool { true }
+    #[verifier::external_body]
+    fn from_tokens(ts: TokenStream) -> (r: Self) { unimplemented!() }
+}
+
+pub assume_specification<'a, T: Copy> [Option::<&'a T>::copied] (o: Option<&'a T>) -> (r: Option<T>)
+    ensures r == (match o { Some(x) => Some(*x), None => None });
+
+/// `Option::as_ref` as a spec function
+pub open spec fn opt_ref<T>(o: &Option<T>) -> Option<&T> { match o { Some(x) => Some(x), None => None } }
+
 // ------------------------------------------------------------------ quote! repetition
 
 pub open spec fn seq_toks<T: ToTokens>(s: Seq<T>) -> Seq<Tok>
